@@ -18,8 +18,10 @@ CONSTANTS
   ExcSets <- MCExc
   ReqSets <- MCReq
   Cap = {cap}
+  Grow = {grow}
   Pinned = {pinned}
 INVARIANT Correct
+INVARIANT QueriesBounded
 INVARIANT BlocksCorrect
 CHECK_DEADLOCK FALSE
 """
@@ -59,37 +61,45 @@ def twin_epochs_case():
     return {"arch": arch}
 
 
-def big_account_case():
-    """one epoch in which account 1 is mentioned by more transactions than the index path's per-account batch"""
-    blocks, sig = [], 0
-    slot = 432000 * 7 + 2
-    parent = 432000 * 7 - 1
-    for b in range(6):
-        txs = []
-        for k in range(25):
-            sig += 1
-            txs.append({"sig": sig, "accts": [1] if k % 5 else [2], "loaded": [], "vote": False, "failed": False, "nometa": False,
-                        "dframes": 1, "mframes": 1, "pad": 0, "mpad": 0})
-        blocks.append({"slot": slot, "parent": parent, "blocktime": 1600000000 + slot % 100000, "height": slot + 7, "entries": [{"txs": txs}], "rframes": 0})
-        parent, slot = slot, slot + 2
-    return {"arch": [{"epoch": 7, "blocks": blocks}]}
+def big_account_case(nblocks=6, epochs=(7,)):
+    """epochs in which account 1 is mentioned by more transactions than the index path's first per-account query (100):
+    20 per block (sub-ranges of 5 blocks hold exactly 100, of 10 blocks exactly 200, 11 blocks 220: two enlargements of the query)"""
+    arch, sig = [], 0
+    for ep in epochs:
+        blocks = []
+        slot = 432000 * ep + 2
+        parent = 432000 * ep - 1
+        for b in range(nblocks):
+            txs = []
+            for k in range(25):
+                sig += 1
+                txs.append({"sig": sig, "accts": [1] if k % 5 else [2], "loaded": [], "vote": False, "failed": False, "nometa": False,
+                            "dframes": 1, "mframes": 1, "pad": 0, "mpad": 0})
+            blocks.append({"slot": slot, "parent": parent, "blocktime": 1600000000 + slot % 100000, "height": slot + 7, "entries": [{"txs": txs}], "rframes": 0})
+            parent, slot = slot, slot + 2
+        arch.append({"epoch": ep, "blocks": blocks})
+    return {"arch": arch}
 
 
 def run(ctx):
     q = ctx.quick
-    ctx.r1_check(MODS, "MC_Stream", MC.format(cap=100, pinned="FALSE"), name="MC_Stream", timeout_s=1200)
+    ctx.r1_check(MODS, "MC_Stream", MC.format(cap=100, grow="TRUE", pinned="FALSE"), name="MC_Stream", timeout_s=1200)
+    # first limit 1: every account with two or more matches goes through the enlargement loop (1, 2, 4, ...)
+    ctx.r1_check(MODS, "MC_Stream", MC.format(cap=1, grow="TRUE", pinned="FALSE"), name="MC_Stream_enlarge", timeout_s=1200)
     if not q:
-        neg = ctx.r1_check(MODS, "MC_Stream", MC.format(cap=100, pinned="TRUE"), name="MC_Stream_pinned_negative", expect_violation=True)
-        neg2 = ctx.r1_check(MODS, "MC_Stream", MC.format(cap=1, pinned="FALSE"), name="MC_Stream_cap_negative", expect_violation=True)
+        neg = ctx.r1_check(MODS, "MC_Stream", MC.format(cap=100, grow="TRUE", pinned="TRUE"), name="MC_Stream_pinned_negative", expect_violation=True)
+        neg2 = ctx.r1_check(MODS, "MC_Stream", MC.format(cap=1, grow="FALSE", pinned="FALSE"), name="MC_Stream_cap_negative", expect_violation=True)
         if "Correct" not in neg.violations or "Correct" not in neg2.violations:
             raise Inconclusive("negative configurations no longer violate Correct: vacuous model")
-        ctx.extra["negative_configs"] = "pinned predicate use / early return violates Correct; a per-account cap below the number of matches violates Correct"
+        ctx.extra["negative_configs"] = "pinned predicate use / early return violates Correct; a single per-account query (no enlargement) with a limit below the number of matches violates Correct"
     if ctx.replay:
         cases = [ctx.replay["case"]]
     else:
         cases = [prep(c) for c in gen_archives(ctx, 3 if q else 20, name="Gen_Ledger_stream", eps="{1, 2, 5}", me=2, mine=2, mintx=10, depth=160)]
         cases += [prep(c) for c in gen_archives(ctx, 2 if q else 10, name="Gen_Ledger_stream1", eps="{0, 3}", me=1, mine=1, mintx=8, depth=120)]
         cases.append(big_account_case())
+        cases.append(big_account_case(11))
+        cases.append(big_account_case(3, (7, 8)))
         cases.append(twin_epochs_case())
     casep = ctx.write_ndjson("cases.ndjson", cases)
     ov = ctx.overlay(main_files=["helpers_test.go", "arch_test.go", "c19_test.go"], replace=gsfa_fast_overlay(ctx))
@@ -122,6 +132,7 @@ def run(ctx):
                       case=cases[o["case"] - 1] if not ctx.replay else None, obs={k: v for k, v in o.items() if k != "arch"})
     ctx.samples += [{"range": [o["start"], o["end"]], "filter": o["f"], "index": o["index"], "result": o["result"][:10]} for o in obs[:3]]
     ctx.extra["streams_judged"] = len(obs)
+    ctx.extra["streams_beyond_first_index_query"] = sum(1 for o in obs if o["overcap"])
     ctx.extra["field_drift"] = "slot/index fields of streamed transactions differ from the archive in %d streams" % ctx.drift
     ctx.assumptions += ["filters always carry vote and failed (their absence is C08's domain)", "exclude / required accounts are drawn from accounts that never occur as address-table loaded accounts",
                         "messages without a transaction payload (the index path's empty marker) are not transactions", "the address index is loaded for all epochs or for none"]
